@@ -65,6 +65,9 @@ type rule struct {
 	Go     bool     `json:"go"`     // go f() -> vsched.Go
 	Chan   bool     `json:"chan"`   // points before channel operations
 	Access []string `json:"access"` // field names whose reads/writes become access points
+	// AccessStructs: every field of these struct types (as declared in the rule's files, read
+	// from the current tree) is an access point too — a field added later is covered automatically
+	AccessStructs []string `json:"access_structs"`
 }
 
 type spec struct {
@@ -136,6 +139,27 @@ func main() {
 	// rewrites
 	n := 0
 	for _, r := range sp.Rewrite {
+		if len(r.AccessStructs) > 0 {
+			want := map[string]bool{}
+			for _, n := range r.AccessStructs {
+				want[n] = true
+			}
+			have := map[string]bool{}
+			for _, a := range r.Access {
+				have[a] = true
+			}
+			for _, g := range r.Files {
+				matches, _ := filepath.Glob(filepath.Join(repo, g))
+				for _, src := range matches {
+					for _, fn := range structFields(srcFor(src), want) {
+						if !have[fn] {
+							have[fn] = true
+							r.Access = append(r.Access, fn)
+						}
+					}
+				}
+			}
+		}
 		for _, g := range r.Files {
 			matches, _ := filepath.Glob(filepath.Join(repo, g))
 			if len(matches) == 0 {
@@ -172,6 +196,35 @@ func main() {
 	if err := os.WriteFile(filepath.Join(*out, "overlay.json"), b, 0o644); err != nil {
 		die("%v", err)
 	}
+}
+
+// structFields returns the field names of the wanted struct types declared in a file.
+func structFields(path string, want map[string]bool) []string {
+	fset := token.NewFileSet()
+	f, err := parser.ParseFile(fset, path, nil, 0)
+	if err != nil {
+		die("%s: %v", path, err)
+	}
+	var out []string
+	for _, d := range f.Decls {
+		gd, ok := d.(*ast.GenDecl)
+		if !ok || gd.Tok != token.TYPE {
+			continue
+		}
+		for _, sp := range gd.Specs {
+			ts := sp.(*ast.TypeSpec)
+			st, ok := ts.Type.(*ast.StructType)
+			if !ok || !want[ts.Name.Name] {
+				continue
+			}
+			for _, fl := range st.Fields.List {
+				for _, id := range fl.Names {
+					out = append(out, id.Name)
+				}
+			}
+		}
+	}
+	return out
 }
 
 // ---------------------------------------------------------------------------------------
